@@ -25,12 +25,17 @@ type trans struct {
 
 // The kinds of a transition, from its own numbers.
 const (
-	kOrdinary       = "ordinary"        // whole hours, neither removes nor repeats 00:00
-	kMidnightGap    = "midnight-gap"    // the removed local interval contains 00:00
-	kNonHour        = "non-hour-shift"  // offset delta not a multiple of 3600 s
-	kSkippedDay     = "skipped-day"     // a whole local calendar day is removed
-	kMidnightRepeat = "midnight-repeat" // whole hours backward, the repeated local interval contains 00:00
+	kOrdinary       = "ordinary"          // exactly one hour, switching on a whole local hour, 00:00 neither removed nor repeated
+	kMidnightGap    = "midnight-gap"      // the removed local interval contains 00:00
+	kNonHour        = "non-hour-shift"    // offset delta not a multiple of 3600 s
+	kSkippedDay     = "skipped-day"       // a whole local calendar day is removed
+	kMidnightRepeat = "midnight-repeat"   // whole hours backward, the repeated local interval contains 00:00
+	kOffHour        = "off-hour-boundary" // whole-hour shift, but the clock switches at a reading that is not a whole hour (00:01, 02:45)
+	kMultiHour      = "multi-hour-shift"  // whole-hour shift of two hours or more
 )
+
+// kindOrder: the most exotic kind present names a mismatch.
+var kindOrder = []string{kSkippedDay, kMidnightGap, kNonHour, kMidnightRepeat, kOffHour, kMultiHour}
 
 // kinds returns every kind the transition belongs to.
 func (tr trans) kinds() []string {
@@ -55,6 +60,13 @@ func (tr trans) kinds() []string {
 	}
 	if d%3600 != 0 {
 		out = append(out, kNonHour)
+	} else {
+		if a%3600 != 0 {
+			out = append(out, kOffHour)
+		}
+		if d >= 7200 || d <= -7200 {
+			out = append(out, kMultiHour)
+		}
 	}
 	if len(out) == 0 {
 		out = append(out, kOrdinary)
@@ -71,22 +83,56 @@ func (tr trans) is(kind string) bool {
 	return false
 }
 
+func offsetAt(loc *time.Location, u int64) int {
+	_, off := time.Unix(u, 0).In(loc).Zone()
+	return off
+}
+
+// period returns the offset in force at instant cur and an instant end > cur
+// such that the offset is constant on [cur, end) (inf: for ever). It is built
+// on Time.ZoneBounds, whose answer is checked: in the years a zone file covers
+// only by its rule string, Go reports pseudo-boundaries at the start of each
+// UTC year and, on the last day of a leap year, an end that is not after cur.
+func period(loc *time.Location, cur int64) (off int, end int64, inf bool) {
+	tt := time.Unix(cur, 0).In(loc)
+	_, off = tt.Zone()
+	_, pe := tt.ZoneBounds()
+	if pe.IsZero() {
+		return off, 0, true
+	}
+	end = pe.Unix()
+	if end <= cur {
+		end = (floorDiv(cur, 86400) + 1) * 86400
+	}
+	if offsetAt(loc, end-1) != off {
+		// not constant: bisect for the first instant with another offset
+		lo, hi := cur, end-1 // offset(lo) == off, offset(hi) != off
+		for hi-lo > 1 {
+			mid := lo + (hi-lo)/2
+			if offsetAt(loc, mid) == off {
+				lo = mid
+			} else {
+				hi = mid
+			}
+		}
+		end = hi
+	}
+	return off, end, false
+}
+
 // transitionsIn lists the offset changes with instant in (from, to].
 func transitionsIn(loc *time.Location, from, to int64) []trans {
 	var out []trans
 	cur := from
 	for guard := 0; guard < 20000; guard++ {
-		tt := time.Unix(cur, 0).In(loc)
-		_, end := tt.ZoneBounds()
-		if end.IsZero() || end.Unix() > to {
+		o1, end, inf := period(loc, cur)
+		if inf || end > to {
 			break
 		}
-		_, o1 := tt.Zone()
-		_, o2 := end.In(loc).Zone()
-		if o1 != o2 {
-			out = append(out, trans{at: end.Unix(), before: o1, after: o2})
+		if o2 := offsetAt(loc, end); o1 != o2 {
+			out = append(out, trans{at: end, before: o1, after: o2})
 		}
-		cur = end.Unix()
+		cur = end
 	}
 	return out
 }
@@ -97,7 +143,7 @@ func classify(trs []trans) string {
 	if len(trs) == 0 {
 		return "no-transition"
 	}
-	for _, k := range []string{kSkippedDay, kMidnightGap, kNonHour, kMidnightRepeat} {
+	for _, k := range kindOrder {
 		for _, tr := range trs {
 			if tr.is(k) {
 				return "dst/" + k
